@@ -5,9 +5,32 @@
   HKDF is fed those 64 bytes.
 -/
 import Proofs.PairSetup
+import Proofs.HandlerConsts
 import HapModel.Gen.SrpGroup
 namespace Hap.C08
 open Hap Hap.Tlv Hap.Srp Hap.PairSetup
+
+/-- The pair-setup HKDF labels, AEAD nonces and TLV constants found in pyhap/hap_handler.py *now*
+    (regenerated on every run) are the HAP specification's — the ones the reference controller uses. -/
+theorem C08_protocol_constants :
+    Hap.Gen.Handler.h_PAIRING_3_SALT = Hap.Gen.Handler.ascii "Pair-Setup-Encrypt-Salt" ∧
+    Hap.Gen.Handler.h_PAIRING_3_INFO = Hap.Gen.Handler.ascii "Pair-Setup-Encrypt-Info" ∧
+    Hap.Gen.Handler.h_PAIRING_3_NONCE = [0, 0, 0, 0] ++ Hap.Gen.Handler.ascii "PS-Msg05" ∧
+    Hap.Gen.Handler.h_PAIRING_4_SALT = Hap.Gen.Handler.ascii "Pair-Setup-Controller-Sign-Salt" ∧
+    Hap.Gen.Handler.h_PAIRING_4_INFO = Hap.Gen.Handler.ascii "Pair-Setup-Controller-Sign-Info" ∧
+    Hap.Gen.Handler.h_PAIRING_5_SALT = Hap.Gen.Handler.ascii "Pair-Setup-Accessory-Sign-Salt" ∧
+    Hap.Gen.Handler.h_PAIRING_5_INFO = Hap.Gen.Handler.ascii "Pair-Setup-Accessory-Sign-Info" ∧
+    Hap.Gen.Handler.h_PAIRING_5_NONCE = [0, 0, 0, 0] ++ Hap.Gen.Handler.ascii "PS-Msg06" ∧
+    Hap.Gen.Handler.tag_SALT = [2] ∧ Hap.Gen.Handler.tag_PUBLIC_KEY = [3] ∧
+    Hap.Gen.Handler.tag_PASSWORD_PROOF = [4] ∧ Hap.Gen.Handler.tag_ENCRYPTED_DATA = [5] ∧
+    Hap.Gen.Handler.tag_SEQUENCE_NUM = [6] ∧ Hap.Gen.Handler.tag_ERROR_CODE = [7] ∧
+    Hap.Gen.Handler.tag_PROOF = [10] :=
+  ⟨Hap.Gen.Handler.pair_setup_labels.1, Hap.Gen.Handler.pair_setup_labels.2.1,
+   Hap.Gen.Handler.pair_setup_labels.2.2.1, Hap.Gen.Handler.pair_setup_labels.2.2.2.1,
+   Hap.Gen.Handler.pair_setup_labels.2.2.2.2.1, Hap.Gen.Handler.pair_setup_labels.2.2.2.2.2.1,
+   Hap.Gen.Handler.pair_setup_labels.2.2.2.2.2.2.1, Hap.Gen.Handler.pair_setup_labels.2.2.2.2.2.2.2,
+   by decide, by decide, by decide, by decide, by decide, by decide, by decide⟩
+
 
 /-- SRP-6a algebra: the accessory's premaster secret `(A·v^u)^b` equals the RFC 5054 client's
     `(B − k·g^x)^(a+u·x)` (computed on Python ints, the difference may be negative), for every modulus
